@@ -32,6 +32,19 @@ WITNESSES = [
 ]
 
 
+# witnesses of the select *_refuted theorems: (name, caps, progs in harness JSON form, schedule, keys)
+XWITNESSES = [
+    ("xw_default_not_atomic", [1], [[[6, 0, 0, [[0, 0, 0], [0, 1, 12]]]], [[0, 0, 13, []]]], [0, 1, 1, 0],
+     ["tryselect-default-cases-probed-one-after-the-other"]),
+    ("xw_mirrored_selects", [0], [[[5, 0, 0, [[0, 0, 0], [0, 1, 11]]]], [[5, 0, 0, [[0, 1, 12], [0, 0, 0]]]]],
+     [0, 0, 0, 0, 0, 0, 0, 0, 1, 0, 0, 0, 0, 1, 1, 1, 1, 1, 1, 1], ["select-send-and-recv-same-unbuffered-channel-stuck"]),
+    ("xw_tryselect_blocks", [0, 0], [[[5, 0, 0, [[1, 1, 11], [0, 1, 12]]], [0, 1, 13, []]], [[6, 0, 0, [[0, 0, 0], [0, 1, 14]]]], [[1, 0, 0, []]]],
+     [0, 2, 2, 0, 0, 0, 2, 0, 1, 1, 0, 0, 0, 1], ["unbuffered-recv-armed-for-counted-sender-then-blocked"]),
+    ("xw_select_stuck_pair", [0, 0], [[[5, 0, 0, [[0, 0, 0], [1, 0, 0]]]], [[1, 1, 0, []]], [[5, 0, 0, [[1, 1, 11], [0, 0, 0]]], [0, 0, 12, []]]],
+     [0, 1, 2, 2, 1, 0, 2, 0, 0, 2, 1, 0, 0, 2, 0, 2, 0, 2, 0, 2], ["select-and-matching-partner-both-blocked-on-unbuffered-channel"]),
+]
+
+
 def coq_prog(p):
     return coq_list([("(" + (OPS[k] % v if "%d" in OPS[k] else OPS[k]) + ")") for k, v in p])
 
@@ -59,6 +72,37 @@ def case_term(r):
     return "((%s : nat * list (list op) * schedule), (%s : observation))" % (inp, obs)
 
 
+POPS = ["OSend %d", "ORecv", "OTrySend %d", "OTryRecv", "OClose"]
+
+
+def coq_xop(o):
+    k, ch, v, cases = o
+    if k < 5:
+        return "(XPlain %d%%nat (%s))" % (ch, POPS[k] % v if "%d" in POPS[k] else POPS[k])
+    cs = coq_list([("(CSend %d%%nat %d)" % (c[0], c[2])) if c[1] else ("(CRecv %d%%nat)" % c[0]) for c in cases])
+    return "(%s %s)" % ("XSelect" if k == 5 else "XTrySelect", cs)
+
+
+def coq_xres(op, r):
+    k, a, b, v, isel = r
+    t = lambda x: "true" if x else "false"
+    sel = op[0] >= 5
+    if k == 5:
+        return "XPanic" if sel else "(XR RPanic)"
+    if k == 6:
+        return "(XSel %d%%nat %s %d)" % (isel, t(a), v) if b else "XDefault"
+    return "(XR %s)" % coq_res((k, a, b, v))
+
+
+def xcase_term(r):
+    inp = "(%s, %s, %s)" % (coq_nats(r["caps"]), coq_list([coq_list([coq_xop(o) for o in p]) for p in r["progs"]]), coq_nats(r["sched"]))
+    res = coq_list([coq_list([coq_xres(op, x) for op, x in zip(p, th)]) for p, th in zip(r["progs"], r["res"])])
+    fin = coq_list(["(%d%%nat, %d%%nat, %d%%nat, %d%%nat, %s, %d%%nat)" % (f[0], f[1], f[2], f[3], "true" if f[4] else "false", f[5]) for f in r["fin"]])
+    obs = "(%s, %s, %s, %s)" % (coq_list(["(%d,%d)" % (a, b) for a, b in r["masks"]]), res,
+                                coq_list(["[" + ";".join(str(x) for x in ps) + "]" for ps in r["pslots"]]), fin)
+    return "((%s : list nat * list (list xop) * schedule), (%s : xobservation))" % (inp, obs)
+
+
 def run(ck):
     ck.trusted = ["Coq 8.16.1 kernel (coqc, vm_compute)",
                   "harness scheduler props/C10/harness/vsched + stand-ins psync/clite (Mesa monitors, spurious wake-ups, Broadcast wakes all)",
@@ -78,13 +122,36 @@ def run(ck):
                for n, c, pr, sc, _ in WITNESSES], open(win, "w"))
     out = os.path.join(ck.work, "c10.jsonl")
     nrand = {"quick": 1200, "thorough": 20000}[ck.tier]
-    rc, log = ccmod.go_test(ck, d, "rt", {"VERIF_OUT": out, "VERIF_N": str(nrand), "VERIF_IN": win},
+    xwin = os.path.join(ck.work, "xwitness.json")
+    json.dump([{"Name": n, "Caps": caps, "Progs": progs, "Sched": sc} for n, caps, progs, sc, _ in XWITNESSES], open(xwin, "w"))
+    xoutp = os.path.join(ck.work, "c10sel.jsonl")
+    nsel = {"quick": 1200, "thorough": 20000}[ck.tier]
+    rc, log = ccmod.go_test(ck, d, "rt", {"VERIF_OUT": out, "VERIF_N": str(nrand), "VERIF_IN": win,
+                                           "VERIF_OUT_SEL": xoutp, "VERIF_N_SEL": str(nsel), "VERIF_IN_SEL": xwin},
                             timeout=240 if ck.tier == "quick" else 1700)
     ck.phase("harness ran")
     if rc != 0 or not os.path.exists(out):
         ck.correspondence_broken("harness:z_chan.go", log[-2000:])
         return ck.finish()
     runs, viols, wit, stats = [], [], [], {}
+    xruns, xstats = [], {}
+    if not os.path.exists(xoutp):
+        ck.correspondence_broken("harness:z_chan.go/select", log[-2000:])
+        return ck.finish()
+    for line in open(xoutp):
+        r = json.loads(line)
+        k = r["kind"]
+        if k == "run":
+            xruns.append(r)
+        elif k == "viol":
+            ck.violation(r["key"], r.get("what", ""), {kk: r[kk] for kk in ("progs", "sched", "end", "history")})
+        elif k == "witness":
+            if not r["replayed"] or not r["flagged"]:
+                ck.log("select witness %s no longer reproduces on the real code (defect repaired?): %s" % (r["name"], r["history"]))
+            wit.append(r)
+        elif k == "stat":
+            xstats.update(r)
+    wit_sel, wit = wit, []
     for line in open(out):
         r = json.loads(line)
         k = r["kind"]
@@ -112,6 +179,10 @@ def run(ck):
     for name, cap, progs, sched, _ in WITNESSES:
         body += "Goal %s = (%d%%nat, %s, %s). Proof. reflexivity. Qed.\n" % (
             name, cap, coq_list([coq_prog(p) for p in progs]), coq_nats(sched))
+    body = body.replace("C10.Model C10.Proofs.", "C10.Model C10.Proofs C10.SelModel C10.SelProofs.\nLocal Open Scope N_scope.")
+    for name, caps, progs, sched, _ in XWITNESSES:
+        body += "Goal %s = (%s, %s, %s). Proof. reflexivity. Qed.\n" % (
+            name, coq_nats(caps), coq_list([coq_list([coq_xop(o) for o in p]) for p in progs]), coq_nats(sched))
     rcw, outw = ck.coq_run(body, "c10_witness")
     if rcw != 0:
         ck.correspondence_broken("C10.witnesses", outw[-800:])
@@ -120,6 +191,12 @@ def run(ck):
     hdr = "From LLGoV Require Import Lib.Common C10.Model.\nLocal Open Scope N_scope.\n"
     terms = [case_term(r) for r in runs]
     bad = ck.coq_mismatches(hdr, terms, "observe", "obs_eqb", "c10_runs", shard=250)
+    xhdr = "From LLGoV Require Import Lib.Common C10.Model C10.SelModel.\nLocal Open Scope N_scope.\n"
+    xbad = ck.coq_mismatches(xhdr, [xcase_term(r) for r in xruns], "x_observe", "xobs_eqb", "c10_sel", shard=250)
+    if xbad:
+        b = xruns[xbad[0]]
+        ck.correspondence_broken("C10.SelModel/schedule", {"n_mismatch": len(xbad), "first": {
+            k: b[k] for k in ("caps", "progs", "sched", "masks", "res", "pslots", "fin", "end")}})
     ck.phase("model compared")
     if bad:
         b = runs[bad[0]]
@@ -128,7 +205,11 @@ def run(ck):
     classes = stats.get("classes", {})
     distinct = len({(r["cap"], json.dumps(r["progs"]), tuple(r["sched"])) for r in runs if len(r["sched"]) > 3})
     samples = [{k: r[k] for k in ("cap", "progs", "sched", "res", "end")} for r in runs[len(runs) // 3: len(runs) // 3 + 2]]
-    ck.add_cov(evaluations=len(runs), nontrivial=distinct, samples=samples, classes=classes)
+    classes = dict(classes)
+    classes.update({"select:" + k: v for k, v in xstats.get("classes", {}).items()})
+    xdistinct = len({(json.dumps(r["caps"]), json.dumps(r["progs"]), tuple(r["sched"])) for r in xruns if len(r["sched"]) > 3})
+    ck.add_cov(evaluations=len(runs) + len(xruns), nontrivial=distinct + xdistinct, samples=samples, classes=classes)
+    ck.cov["select_runs"] = len(xruns)
     ck.cov["steps_executed_on_real_code"] = sum(len(r["sched"]) for r in runs)
     ck.cov["witness_replays"] = [{"name": w["name"], "end": w["end"], "flagged": w["flagged"]} for w in wit]
     ck.cov["rule"] = ("explicit schedules executed on the real z_chan.go (goroutines gated at Lock / Wait / Broadcast by the harness "
